@@ -462,6 +462,15 @@ pub fn dump_case(prop: &str, id: &str, t: &Target, cfg: &DumpCfg, dest: &mut Rec
         std::fs::write(format!("{}.{}", base, f), data).ok();
     }
     std::fs::write(format!("{}.cpuinfo", base), std::fs::read("/proc/cpuinfo").unwrap_or_default()).ok();
+    // the kernel's name of every thread (comm), for the thread-names stream
+    {
+        let mut comm = String::new();
+        for th in &t.threads {
+            let data = std::fs::read(format!("/proc/{}/task/{}/comm", t.pid, th.tid)).unwrap_or_default();
+            comm.push_str(&format!("{} {}\n", th.tid, if data.is_empty() { "-".to_string() } else { hex(&data) }));
+        }
+        std::fs::write(format!("{}.comm", base), comm).ok();
+    }
     let mut fds: Vec<String> = Vec::new();
     if let Ok(rd) = std::fs::read_dir(format!("/proc/{}/fd", t.pid)) {
         for e in rd.flatten() {
